@@ -76,17 +76,22 @@ pub fn c17_insert<const N: usize>() {
     tok::reset();
     let mut g = liar_map::<N>();
     let (k, which) = (vf::any_u8(), vf::any_u8());
-    vf::assume(which < 5);
+    vf::assume(which < 7);
+    let base = &g.c as *const Map<Tok, Tok, N>;
     let panicked = {
         let m = &mut g.c;
         vf::catch(move || {
             let (kt, vt) = (Tok::new(k), Tok::new(0x11));
+            // every reference the entry API hands out must be a live value inside the container
+            let good = |r: &mut Tok| { vf::check(tok::live(r.serial()) && vf::ptr_within(r as *const Tok, base), 904); r.set_tag(0x21); };
             match which {
                 0 => drop(m.insert(kt, vt)),
                 1 => drop(m.insert_key_value(kt, vt)),
                 2 => drop(m.checked_insert(kt, vt)),
-                3 => { let _ = m.entry(kt).or_insert(vt); }
-                _ => { match m.entry(kt) { Entry::Vacant(e) => { let _ = e.insert(vt); } Entry::Occupied(mut o) => { drop(o.insert(vt)); drop(o.remove_entry()); } } }
+                3 => { good(m.entry(kt).or_insert(vt)); }
+                4 => { good(m.entry(kt).or_insert_with(|| vt)); }
+                5 => { drop(vt); good(m.entry(kt).or_default()); }
+                _ => { match m.entry(kt) { Entry::Vacant(e) => { good(e.insert(vt)); } Entry::Occupied(mut o) => { good(o.get_mut()); drop(o.insert(vt)); drop(o.remove_entry()); } } }
             }
         })
     };
